@@ -164,8 +164,14 @@ EvRecvRet ==
                                            \* never while bytes that had fully arrived before the call are still undelivered
                                            \* (unless the cap may have dropped them, a flush owns the buffer, or teardown runs)
               /\ Ev.vt - MyRecv[5] >= MyRecv[4] /\ ~ovfSeen[s] /\ TimeoutOk(MyRecv[5], MyRecv[4])
-              /\ (MyRecv[6] /\ Waiting(s)) => (maxBacklog[s] > cap \/ lifeCalled \/ \E f \in pendFlush : f[2] = s)
-              /\ UNCHANGED <<cur, ovfSeen, owed>>
+              /\ \/ /\ (MyRecv[6] /\ Waiting(s)) => (maxBacklog[s] > cap \/ lifeCalled \/ \E f \in pendFlush : f[2] = s)
+                    /\ UNCHANGED <<cur, owed>>
+                 \* ... or the bytes have been TAKEN by another receive on the session that is still in flight (it emptied the
+                 \* buffer before this call looked and has not logged its return yet): they are owed, as for PeerClosed
+                 \/ /\ MyRecv[6] /\ Waiting(s) /\ \E r \in pendRecv \ {MyRecv} : r[2] = s
+                    /\ owed' = [owed EXCEPT ![s] = @ \cup {b \in cur[s]..(arrDone[s] - 1) : b \notin disab[s]}]
+                    /\ cur' = [cur EXCEPT ![s] = arrDone[s]]
+              /\ UNCHANGED ovfSeen
          [] Ev.res = "ShuttingDown" -> lifeCalled /\ UNCHANGED <<cur, ovfSeen, owed>>
          [] Ev.res = "Cancelled" ->        \* single-waiter contract: another receive or a flush on the session is in flight
               \* (at some moment of this call - not necessarily still when its return is logged)
